@@ -1,12 +1,13 @@
 """C04 - see DESIGN.md section 6."""
 from .. import core
-from . import structural
+from . import structural, tracesleg
 
 
 def main(chk: core.Check, replay):
     if replay:
         return core.replay_generic(chk, replay)
     structural.run(chk, "C04")
+    tracesleg.run(chk, 'C04')
 
 
 if __name__ == "__main__":
